@@ -71,13 +71,26 @@ def structure_obligations():
                 rows.append(dict(kind="plural_differs", cls=cname, plural=pname))
             if not isinstance(inst, pc):
                 rows.append(dict(kind="singleton_wrong_type", cls=cname, plural=pname))
-            # batch-mode accessor returns the singular class
+            # every batch-method accessor (unnamed and named plural) returns the singular class of the
+            # same prefab with the batch method of its own name and the plural's device name
             try:
-                av = inst.Average
-                if type(av).__name__ != cname:
-                    rows.append(dict(kind="batch_accessor_class", cls=cname, got=type(av).__name__))
+                named = inst["probe name"]
+                if type(named) is not pc or named._name != "probe name":
+                    rows.append(dict(kind="named_plural", cls=cname, got=f"{type(named).__name__}(name={getattr(named, '_name', None)!r})"))
+                for bm in ("Average", "Sum", "Minimum", "Maximum"):
+                    if tables.all_props(cname).get(bm, (None,))[0] == "logic":
+                        continue  # the device has a logic type of that name (LogicPidController.Minimum): the name denotes the logic type
+                    for src_, nm_ in ((inst, None), (named, "probe name")):
+                        av = getattr(src_, bm)
+                        n += 1
+                        if type(av).__name__ != cname or type(av)._hash != cls._hash:
+                            rows.append(dict(kind="batch_accessor_class", cls=cname, accessor=bm, got=type(av).__name__))
+                        if av._batch_mode is not ty.LogicBatchMethod[bm]:
+                            rows.append(dict(kind="batch_accessor_mode", cls=cname, accessor=bm, got=str(av._batch_mode)))
+                        if av._name != nm_:
+                            rows.append(dict(kind="batch_accessor_name", cls=cname, accessor=bm, got=repr(av._name)))
             except Exception as e:
-                rows.append(dict(kind="batch_accessor_raises", cls=cname, detail=str(e)))
+                rows.append(dict(kind="batch_accessor_raises", cls=cname, detail=f"{type(e).__name__}: {e}"))
         # (3) named slots resolve to their numbered slot; logic properties carry their own name
         try:
             obj = cls("d0")
@@ -158,6 +171,31 @@ def enum_obligations():
     # runtime enums agree with the static extraction
     from stationeers_pytrapic import types_generated as tg
 
+    # numbers the repository's own instruction documentation (docstrings of the generated intrinsic
+    # wrappers: "Contents (0), Required (1), Recipe (2)") gives for enum members must be the table's
+    import re as _re
+
+    from stationeers_pytrapic import intrinsics as _intr
+
+    for fname, fn in vars(_intr).items():
+        doc = getattr(fn, "__doc__", None)
+        if not inspect.isfunction(fn) or not doc:
+            continue
+        ann = " ".join(str(a) for a in getattr(fn, "__annotations__", {}).values())
+        cands = [e_ for e_ in en if _re.search(rf"\b{e_}\b", ann)]
+        group = [(m_, int(k_)) for m_, k_ in _re.findall(r"\b([A-Z][A-Za-z]+) \((\d+)\)", doc)]
+        if not group:
+            continue
+        # the documented group belongs to the parameter enum that has all of its names
+        owners = [e_ for e_ in cands if all(m_ in en[e_] for m_, _ in group)]
+        if not owners:
+            continue
+        n += 1
+        if not any(all(en[e_][m_] == k_ for m_, k_ in group) for e_ in owners):
+            e_ = owners[0]
+            for m_, k_ in group:
+                if en[e_][m_] != k_:
+                    rows.append(dict(kind="enum_value_vs_documentation", enum=e_, member=m_, table=en[e_][m_], documented=k_, where=f"intrinsics.{fname}.__doc__"))
     for ename, members in en.items():
         cls = getattr(tg, ename, None)
         if cls is None:
@@ -311,7 +349,7 @@ def run(tier: str) -> int:
         path = e1.save_replay(PROP, dict(property=PROP, kind="table_row", row=row))
         rep.violation(f"{row}", path)
     rep.coverage = dict(
-        explanation="closed obligations per table row: CRC-32 (z3 bit-vectors) of every prefab name vs stored hash, plural/singular agreement, slot aliases, logic property names on the real classes; Distinct (z3) per enum and static-vs-runtime member agreement; every intrinsic wrapper called with distinct sentinels (opcode = name, operands in order, result iff destination register)",
+        explanation="closed obligations per table row: CRC-32 (z3 bit-vectors) of every prefab name vs stored hash, plural/singular agreement, slot aliases, logic property names on the real classes; Distinct (z3) per enum, static-vs-runtime member agreement, numbers given for enum members in the intrinsic wrappers' documentation vs the table; all four batch-method accessors of every plural class (unnamed and named) return the singular class of the same prefab with that batch method; every intrinsic wrapper called with distinct sentinels (opcode = name, operands in order, result iff destination register)",
         evaluations=ns + ne + ni,
         distinct_nontrivial=ns + ne + ni,
         structures=ns, enums=ne, intrinsics=ni,
